@@ -350,8 +350,34 @@ func (f *Frame) modifiesEffect(c *Contract, callee *ssa.Function, cc *ssa.CallCo
 		ef.ghosts[strings.TrimSpace(strings.TrimPrefix(m, "ghost "))] = true
 		return
 	}
-	// evaluate the entry with dummy arguments to learn the heap it touches
-	locs, ok := e.modifiesLocs(f, c, callee, cc, m, nil, nil)
+	// evaluate the entry with the real arguments where they are loop-invariant, dummy symbols otherwise
+	var args []Val
+	var argVals []ssa.Value
+	if cc.IsInvoke() {
+		argVals = append(argVals, cc.Value)
+	}
+	argVals = append(argVals, cc.Args...)
+	for _, a := range argVals {
+		if f.definedOutside(a, blocks) {
+			if v, ok := f.vals[a]; ok && (v.S != "" || v.Loc != nil) {
+				if v.S == "" {
+					if pt, ok := e.ptrTerm(v); ok {
+						v.S = pt
+					}
+				}
+				if v.S != "" {
+					args = append(args, v)
+					continue
+				}
+			}
+			if _, isParam := a.(*ssa.Parameter); isParam {
+				args = append(args, f.val(a))
+				continue
+			}
+		}
+		args = append(args, e.havocVal(a.Type(), "dummy.arg", nil))
+	}
+	locs, ok := e.modifiesLocs(f, c, callee, cc, m, args, nil)
 	if !ok {
 		ef.unknownCalls = append(ef.unknownCalls, "modifies "+m)
 		return
@@ -361,6 +387,14 @@ func (f *Frame) modifiesEffect(c *Contract, callee *ssa.Function, cc *ssa.CallCo
 		case "obj", "field":
 			srt := e.sortOf(ml.rootT)
 			ef.heapPT[srt] = ml.rootT
+			if ml.base != "" && !strings.Contains(ml.base, "dummy") {
+				t := heapTarget{baseTerm: ml.base}
+				if ml.kind == "field" {
+					t.fields = map[int]bool{ml.field: true}
+				}
+				ef.heapP[srt] = append(ef.heapP[srt], t)
+				continue
+			}
 			ef.heapP[srt] = append(ef.heapP[srt], heapTarget{})
 		case "elems":
 			srt := e.sortOf(ml.rootT)
